@@ -44,6 +44,7 @@ class FakeKazoo(KazooClient):
     self.latencies = list(latencies)
     self.ncalls = 0
     self.callback_errors = []
+    self.incarnations = {}     # path -> [dict(czxid, created, deleted, had_children)]
     self._pump_g = gevent.spawn(self._pump)
 
   def start(self, timeout=15):
@@ -114,6 +115,10 @@ class FakeKazoo(KazooClient):
       return False
     self.zxid += 1
     self.tree[path] = (data, Stat(self.zxid, self.zxid, 0, data))
+    import vf.boot as _b
+    self.incarnations.setdefault(path, []).append({'czxid': self.zxid, 'created': _b.loop.now(), 'deleted': None, 'children': set()})
+    if parent and self.incarnations.get(parent):
+      self.incarnations[parent][-1]['children'].add(path.rsplit('/', 1)[1])
     self._fire(self.dw, path, EventType.CREATED)
     if parent:
       self._fire(self.cw, parent, EventType.CHILD)
@@ -126,6 +131,9 @@ class FakeKazoo(KazooClient):
       return False         # ZooKeeper refuses to delete a node with children
     self.zxid += 1
     del self.tree[path]
+    import vf.boot as _b
+    if self.incarnations.get(path):
+      self.incarnations[path][-1]['deleted'] = _b.loop.now()
     self._fire(self.dw, path, EventType.DELETED)
     self._fire(self.cw, path, EventType.DELETED)
     parent = path.rsplit('/', 1)[0]
